@@ -901,9 +901,25 @@ fn seeded_case(seed: u64, idx: usize, min_n: usize, max_n: usize) -> Case {
     let mut r = VRng::new(seed ^ 0xC15_5EED, idx as u64);
     let n = r.range(min_n as u64, max_n as u64) as usize;
     let w = r.range(1, 8) as usize;
-    let kind = idx % 8;
+    let kind = idx % 10;
     let mut src_gated = false;
     let (api, variant, mut specs): (Api, &'static str, Vec<Spec>) = match kind {
+        8 | 9 => {
+            // the fallible joins with a dependency inside the window (their sources are plain iterators without a
+            // size hint): they must keep w tasks in flight just like the stream
+            let w2 = w.max(2);
+            let d = r.range(1, (w2 - 1).min(n.max(2) - 1).max(1) as u64) as usize;
+            let fwd = r.bool();
+            let and_gate = r.bool();
+            let v = match (fwd, and_gate) {
+                (false, false) => "try_dep_back",
+                (false, true) => "try_dep_back_gate",
+                (true, false) => "try_dep_fwd",
+                (true, true) => "try_dep_fwd_gate",
+            };
+            let specs = dep_specs(n, d, fwd, and_gate);
+            return finish_seeded(idx, if kind == 8 { Api::TryAll } else { Api::TryTrait }, v, n, w2, specs, false, &mut r);
+        }
         0 => (Api::Stream, "plain", plain_specs(n)),
         1 => {
             src_gated = true;
